@@ -76,6 +76,12 @@ Proof.
   rewrite Hal, Hd in H. exact H.
 Qed.
 
+Lemma s_eqb_eq : forall a b : str, s_eqb a b = true -> a = b.
+Proof.
+  induction a as [|x a IH]; intros [|y b] Hab; cbn in Hab; try discriminate; [reflexivity|].
+  apply andb_true_iff in Hab as [Hxy Hab]. apply N.eqb_eq in Hxy. subst y. f_equal. apply IH. exact Hab.
+Qed.
+
 (* str.lower and the first-character map of str.capitalize are ASCII case maps on ASCII letters *)
 Lemma a_letter_fold : forall c, a_letter c = true ->
   map a_fold (c_lower c) = [a_fold c] /\ map a_fold (c_capfirst c) = [a_fold c].
@@ -86,21 +92,12 @@ Proof.
              ascii_range = true) by (vm_compute; reflexivity).
   pose proof (ascii_forall _ T c (a_letter_lt c Hl)) as H. cbv beta in H.
   rewrite Hl in H. cbn [implb] in H. apply andb_true_iff in H as [H1 H2].
-  assert (E : forall a b : str, s_eqb a b = true -> a = b).
-  { induction a as [|x a IH]; intros [|y b] Hab; cbn in Hab; try discriminate; [reflexivity|].
-    apply andb_true_iff in Hab as [Hxy Hab]. apply N.eqb_eq in Hxy. subst y. f_equal. apply IH. exact Hab. }
-  split; apply E; assumption.
+  clear T. split; apply s_eqb_eq; assumption.
 Qed.
 
 (* ------------------------------------------------------------------------------------------ *)
 (* 2. Lemmas about the Lib/Py.v functions                                                       *)
 (* ------------------------------------------------------------------------------------------ *)
-
-Lemma s_eqb_eq : forall a b : str, s_eqb a b = true -> a = b.
-Proof.
-  induction a as [|x a IH]; intros [|y b] Hab; cbn in Hab; try discriminate; [reflexivity|].
-  apply andb_true_iff in Hab as [Hxy Hab]. apply N.eqb_eq in Hxy. subst y. f_equal. apply IH. exact Hab.
-Qed.
 
 Lemma s_eqb_nil_true : forall a : str, s_eqb a [] = true -> a = [].
 Proof. intros a H. apply s_eqb_eq. exact H. Qed.
@@ -169,20 +166,6 @@ Proof.
   rewrite Z.min_l by (cbn [length]; lia). reflexivity.
 Qed.
 
-Lemma l_get_in_range : forall (A : Type) (l : list A) i,
-  (0 <= i < Z.of_nat (length l))%Z -> exists x, l_get l i = OK x.
-Proof.
-  intros A l i Hi. unfold l_get. cbv zeta.
-  replace (Z.ltb i 0) with false by (symmetry; apply Z.ltb_ge; lia).
-  cbv beta iota.
-  replace (Z.ltb i 0) with false by (symmetry; apply Z.ltb_ge; lia).
-  replace (Z.leb (Z.of_nat (length l)) i) with false by (symmetry; apply Z.leb_gt; lia).
-  cbn [orb].
-  destruct (nth_error l (Z.to_nat i)) as [x|] eqn:E.
-  - exists x. reflexivity.
-  - apply nth_error_None in E. lia.
-Qed.
-
 (* --- int(a / b) *)
 Lemma int_truediv_quot : forall a b,
   (Z.abs a < 9007199254740992)%Z -> (0 < b <= 10000)%Z -> int_truediv a b = OK (Z.quot a b).
@@ -200,12 +183,6 @@ Lemma filter_id : forall (A : Type) (f : A -> bool) l, forallb f l = true -> fil
 Proof.
   induction l as [|x l IH]; intros H; cbn in *; [reflexivity|].
   apply andb_true_iff in H as [Hx Hl]. rewrite Hx. f_equal. apply IH. exact Hl.
-Qed.
-
-Lemma filter_nil_forallb : forall (A : Type) (f : A -> bool) l, filter f l = [] -> forallb (fun x => negb (f x)) l = true.
-Proof.
-  induction l as [|x l IH]; intros H; cbn in *; [reflexivity|].
-  destruct (f x); [discriminate|]. cbn. apply IH. exact H.
 Qed.
 
 (* the digits of an ASCII string are ASCII digits *)
@@ -299,10 +276,13 @@ Proof.
     + apply IH in H. cbn [rev] in H. rewrite <- app_assoc in H. exact H.
 Qed.
 
+Lemma OK_inj : forall (A : Type) (a b : A), OK a = OK b -> a = b.
+Proof. intros A a b H. injection H as H. exact H. Qed.
+
 Lemma s_split_on_two : forall sep s p q, s_split_on sep s = OK [p; q] -> s = p ++ sep ++ q.
 Proof.
   intros sep s p q H. unfold s_split_on in H. destruct sep as [|c sep]; [discriminate|].
-  injection H as H. apply s_split_on_fuel_two in H. exact H.
+  apply OK_inj in H. apply s_split_on_fuel_two in H. exact H.
 Qed.
 
 Lemma s_split_on_ok : forall sep s, sep <> [] -> exists l, s_split_on sep s = OK l.
@@ -326,3 +306,346 @@ Proof.
   rewrite map_app. destruct (a_letter_fold c Hc) as [_ E]. rewrite E. cbn [app map]. f_equal.
   apply s_lower_fold. exact Hx.
 Qed.
+
+(* ------------------------------------------------------------------------------------------ *)
+(* 3. The generated helper process_metastable_element_str                                       *)
+(* ------------------------------------------------------------------------------------------ *)
+
+(* on a non-empty string it never raises, and it only cuts the string in two *)
+Lemma process_metastable_split : forall q, q <> [] ->
+  exists mc el, process_metastable_element_str q = OK (mc, el) /\ q = mc ++ el.
+Proof.
+  intros q Hq. destruct q as [|c r]; [contradiction|].
+  unfold process_metastable_element_str.
+  rewrite s_get_cons_0, l_slice_from_cons_1. cbv [bind].
+  destruct (Z.gtb (Z.of_nat (length (c :: r))) 2).
+  - exists [c], r. split; reflexivity.
+  - destruct (l_mem_str [c] metastable_chars && d_mem_sz z_dict r).
+    + exists [c], r. split; reflexivity.
+    + exists [], (c :: r). split; reflexivity.
+Qed.
+
+(* ------------------------------------------------------------------------------------------ *)
+(* 4. parse_nuclide_str: one walk through the generated code                                    *)
+(* ------------------------------------------------------------------------------------------ *)
+
+(* what the walk establishes about the outcome, [u] being the input with whitespace and the first
+   hyphen removed *)
+Definition pns_post (u : str) (m : res str) : Prop :=
+  match m with
+  | OK r =>
+      exists p A q El st,
+        u = p ++ A ++ q /\
+        A <> [] /\ all_digits A = true /\ (dvalue A <= 300)%Z /\ all_letters p = true /\ all_letters q = true /\
+        In El elements /\ In st states /\ r = canonical El A st /\
+        ( (p <> [] /\ same_fold p El /\ same_fold q st)
+          \/ (p = [] /\ exists q1 q2, q = q1 ++ q2 /\ same_fold q1 st /\ same_fold q2 El) )
+  | Raise ValueError => True
+  | Raise NuclideStrError => True
+  | Raise _ => False
+  end.
+
+(* the tail shared by both branches: element symbol and state letter checks *)
+Lemma state_in_states : forall st, s_eqb st [] || l_mem_str st metastable_chars = true -> In st states.
+Proof.
+  intros st H. apply orb_true_iff in H as [H|H].
+  - apply s_eqb_nil_true in H. subst st. left. reflexivity.
+  - right. apply l_mem_str_in. exact H.
+Qed.
+
+(* the two components around the digit string are digit-free, hence ASCII letters *)
+Lemma split_letters : forall u p A q,
+  u = p ++ A ++ q -> forallb c_isalnum u = true -> s_isascii u = true ->
+  s_filter_digits u = A -> all_digits A = true ->
+  all_letters p = true /\ all_letters q = true.
+Proof.
+  intros u p A q Hu Hal Has Hf HAd. subst u.
+  unfold s_isascii in Has. rewrite !forallb_app in Hal, Has.
+  apply andb_true_iff in Hal as [Halp Hal]. apply andb_true_iff in Hal as [_ Halq].
+  apply andb_true_iff in Has as [Hasp Has]. apply andb_true_iff in Has as [_ Hasq].
+  unfold s_filter_digits in Hf. rewrite !filter_app in Hf.
+  fold (s_filter_digits A) in Hf. rewrite (all_digits_filter_id A HAd) in Hf.
+  assert (Hlen : length (filter c_isdigit p) = 0%nat /\ length (filter c_isdigit q) = 0%nat).
+  { apply (f_equal (@length N)) in Hf. rewrite !app_length in Hf. lia. }
+  destruct Hlen as [Hp Hq]. apply length_zero_iff_nil in Hp, Hq.
+  split; apply nondigit_alnum_letters; assumption.
+Qed.
+
+Lemma pns_walk : forall s, pns_post (s_replace_first hyphen [] (ws_free s)) (parse_nuclide_str s).
+Proof.
+  intros s. unfold parse_nuclide_str. cbv zeta.
+  set (u := s_replace_first _ _ (s_remove_ws s)).
+  change (s_replace_first hyphen [] (ws_free s)) with u.
+  destruct (s_isalnum u && s_isascii u) eqn:Hcls; cbn [negb]; [|exact I].
+  apply andb_true_iff in Hcls as [Halnum Hascii].
+  assert (Halnum' : forallb c_isalnum u = true).
+  { unfold s_isalnum in Halnum. destruct u; [discriminate|exact Halnum]. }
+  set (A := s_filter_digits u).
+  assert (HAd : all_digits A = true) by (apply filter_digits_all_digits; exact Hascii).
+  destruct (Z.eqb (Z.of_nat (length A)) 0) eqn:HlenA; cbv [bind]; [exact I|].
+  assert (HAne : A <> []).
+  { intros E. rewrite E in HlenA. cbn in HlenA. discriminate. }
+  rewrite (s_int_digits A HAne HAd).
+  destruct (Nat.ltb 4300 (length A)); [exact I|].
+  destruct (Z.gtb (dvalue A) 300) eqn:Hgt; [exact I|].
+  assert (Hle : (dvalue A <= 300)%Z).
+  { rewrite Z.gtb_ltb in Hgt. apply Z.ltb_ge in Hgt. exact Hgt. }
+  destruct (s_split_on_ok A u HAne) as (comps & Hsplit). rewrite Hsplit.
+  destruct (Z.eqb (Z.of_nat (length comps)) 2) eqn:Hlen2; cbn [negb]; [|exact I].
+  apply Z.eqb_eq in Hlen2. apply length2 in Hlen2 as (p & q & ->).
+  rewrite !l_get_pair_0, !l_get_pair_1.
+  apply s_split_on_two in Hsplit.
+  destruct (split_letters u p A q Hsplit Halnum' Hascii eq_refl HAd) as [Hlp Hlq].
+  destruct (s_eqb p _) eqn:Hp.
+  - (* mass number first *)
+    apply s_eqb_nil_true in Hp.
+    destruct (s_eqb q _) eqn:Hq; [exact I|].
+    apply s_eqb_nil_false in Hq.
+    destruct (process_metastable_split q Hq) as (mc & el & Hpm & Hqs). rewrite Hpm.
+    destruct (d_mem_sz z_dict (s_capitalize el)) eqn:Hel; cbn [negb]; [|exact I].
+    destruct (Z.gtb (Z.of_nat (length mc)) 1); [exact I|].
+    destruct (s_eqb (s_lower mc) _ || l_mem_str (s_lower mc) metastable_chars) eqn:Hst; cbn [negb]; [|exact I].
+    assert (Hl : all_letters mc = true /\ all_letters el = true).
+    { unfold all_letters in *. rewrite Hqs, forallb_app in Hlq. apply andb_true_iff in Hlq. exact Hlq. }
+    destruct Hl as [Hlmc Hlel].
+    exists p, A, q, (s_capitalize el), (s_lower mc).
+    repeat split; try assumption.
+    + apply d_mem_sz_in. exact Hel.
+    + apply state_in_states. exact Hst.
+    + right. split; [exact Hp|]. exists mc, el. split; [exact Hqs|]. split.
+      * unfold same_fold. symmetry. apply s_lower_fold. exact Hlmc.
+      * unfold same_fold. symmetry. apply s_capitalize_fold. exact Hlel.
+  - (* element first *)
+    apply s_eqb_nil_false in Hp.
+    destruct (d_mem_sz z_dict (s_capitalize p)) eqn:Hel; cbn [negb]; [|exact I].
+    destruct (Z.gtb (Z.of_nat (length q)) 1); [exact I|].
+    destruct (s_eqb (s_lower q) _ || l_mem_str (s_lower q) metastable_chars) eqn:Hst; cbn [negb]; [|exact I].
+    exists p, A, q, (s_capitalize p), (s_lower q).
+    repeat split; try assumption.
+    + apply d_mem_sz_in. exact Hel.
+    + apply state_in_states. exact Hst.
+    + left. split; [exact Hp|]. split.
+      * unfold same_fold. symmetry. apply s_capitalize_fold. exact Hlp.
+      * unfold same_fold. symmetry. apply s_lower_fold. exact Hlq.
+Qed.
+
+Lemma parse_str_total : forall s : str, is_ok_or_valueerror (parse_nuclide_str s).
+Proof.
+  intros s. pose proof (pns_walk s) as H. unfold pns_post in H. unfold is_ok_or_valueerror.
+  destruct (parse_nuclide_str s) as [r|e]; [exact I|]. destruct e; try exact I; exact H.
+Qed.
+
+Lemma accepted_is_literal : forall s r, parse_nuclide_str s = OK r ->
+  exists p A q El st,
+    s_replace_first hyphen [] (ws_free s) = p ++ A ++ q /\
+    A <> [] /\ all_digits A = true /\ (dvalue A <= 300)%Z /\ all_letters p = true /\ all_letters q = true /\
+    In El elements /\ In st states /\ r = canonical El A st /\
+    ( (p <> [] /\ same_fold p El /\ same_fold q st)                      (* element first *)
+      \/ (p = [] /\ exists q1 q2, q = q1 ++ q2 /\ same_fold q1 st /\ same_fold q2 El) ).   (* mass first *)
+Proof.
+  intros s r H. pose proof (pns_walk s) as W. rewrite H in W. exact W.
+Qed.
+
+(* ------------------------------------------------------------------------------------------ *)
+(* 5. parse_id                                                                                  *)
+(* ------------------------------------------------------------------------------------------ *)
+
+Lemma metastable_len : Z.of_nat (length metastable_chars) = 6%Z.
+Proof. reflexivity. Qed.
+
+(* the i-th state letter (1-based) has state number i *)
+Lemma metastable_get : forall i, (1 <= i <= 6)%Z ->
+  exists st, l_get metastable_chars (i - 1)%Z = OK st /\ state_num st = Some i.
+Proof.
+  intros i Hi.
+  assert (C : (i = 1 \/ i = 2 \/ i = 3 \/ i = 4 \/ i = 5 \/ i = 6)%Z) by lia.
+  destruct C as [->|[->|[->|[->|[->| ->]]]]]; eexists; split; vm_compute; reflexivity.
+Qed.
+
+(* every atomic number in Z_DICT is positive *)
+Lemma z_dict_keys_pos : forall k, d_mem_zs z_dict k = true -> (0 < k)%Z.
+Proof.
+  intros k H. apply d_mem_zs_in in H.
+  assert (T : forallb (fun k => Z.ltb 0 k) (map fst z_dict) = true) by (vm_compute; reflexivity).
+  rewrite forallb_forall in T. apply Z.ltb_lt. apply T. exact H.
+Qed.
+
+(* element symbols are unique: looking an entry's symbol up gives back its atomic number *)
+Lemma z_dict_get_z_of : forall k El, d_get_zs z_dict k = OK El -> z_of El z_dict = Some k.
+Proof.
+  intros k El H. apply d_get_zs_in in H.
+  assert (T : forallb (fun kv => match z_of (snd kv) z_dict with Some k' => Z.eqb k' (fst kv) | None => false end)
+                      z_dict = true) by (vm_compute; reflexivity).
+  rewrite forallb_forall in T. specialize (T _ H). cbn [fst snd] in T.
+  destruct (z_of El z_dict) as [k'|]; [|discriminate]. apply Z.eqb_eq in T. subst k'. reflexivity.
+Qed.
+
+(* arithmetic of the id decomposition; lia is taught Z.quot for this section only *)
+Section QuotArith.
+Ltac Zify.zify_post_hook ::= Z.to_euclidean_division_equations.
+
+Lemma quot_abs_10000 : forall z, (Z.abs z <= 10000000000)%Z -> (Z.abs (Z.quot z 10000) <= 1000000)%Z.
+Proof. intros z H. lia. Qed.
+
+Lemma quot_nonpos_10000 : forall z, (z <= 0)%Z -> (Z.quot z 10000 <= 0)%Z.
+Proof. intros z H. lia. Qed.
+
+Lemma quot_nonpos_1000 : forall z, (z <= 0)%Z -> (Z.quot z 1000 <= 0)%Z.
+Proof. intros z H. lia. Qed.
+
+Lemma quot_rem_nonneg_10000 : forall z, (0 <= z)%Z ->
+  (0 <= Z.quot z 10000)%Z /\ (0 <= z - Z.quot z 10000 * 10000 < 10000)%Z.
+Proof. intros z H. lia. Qed.
+
+Lemma quot_rem_nonneg_1000 : forall z, (0 <= z)%Z ->
+  (0 <= Z.quot z 1000)%Z /\ (0 <= z - Z.quot z 1000 * 1000 < 1000)%Z.
+Proof. intros z H. lia. Qed.
+End QuotArith.
+
+Definition pid_post (z : Z) (m : res str) : Prop :=
+  match m with
+  | OK r =>
+      exists zz a sn El st, z = id_of zz a sn /\ (0 <= a < 1000)%Z /\ (0 <= sn <= 6)%Z /\
+        z_of El z_dict = Some zz /\ state_num st = Some sn /\ r = El ++ hyphen ++ s_of_int a ++ st
+  | Raise ValueError => True
+  | Raise _ => False
+  end.
+
+Lemma pid_walk : forall z, (Z.abs z <= 10000000000)%Z -> pid_post z (parse_id z).
+Proof.
+  intros z Hz. unfold parse_id.
+  rewrite (int_truediv_quot z 10000) by lia. cbv [bind].
+  rewrite metastable_len.
+  pose proof (quot_abs_10000 z Hz) as Hq.
+  set (q := Z.quot z 10000) in *.
+  set (sd := (z - q * 10000)%Z).
+  rewrite (int_truediv_quot q 1000) by lia.
+  set (zz := Z.quot q 1000).
+  unfold build_nuclide_string.
+  destruct (Z.gtb sd 6) eqn:Hsd6; [exact I|].
+  rewrite Z.gtb_ltb in Hsd6. apply Z.ltb_ge in Hsd6.
+  (* the atomic number must be in Z_DICT, hence positive, hence z >= 0 *)
+  assert (Hpos : d_mem_zs z_dict zz = true -> (0 <= z)%Z /\ (0 <= sd)%Z /\ (0 <= q - zz * 1000 < 1000)%Z).
+  { intros Hm. apply z_dict_keys_pos in Hm.
+    assert (Hq0 : (0 < q)%Z).
+    { destruct (Z.lt_trichotomy 0 q) as [G|G]; [exact G|].
+      assert (G' : (q <= 0)%Z) by lia. apply quot_nonpos_1000 in G'. fold zz in G'. lia. }
+    assert (Hz0 : (0 <= z)%Z).
+    { destruct (Z.le_gt_cases 0 z) as [G|G]; [exact G|].
+      assert (G' : (z <= 0)%Z) by lia. apply quot_nonpos_10000 in G'. fold q in G'. lia. }
+    destruct (quot_rem_nonneg_10000 z Hz0) as [_ Hr]. fold q in Hr. fold sd in Hr.
+    destruct (quot_rem_nonneg_1000 q ltac:(lia)) as [_ Hr']. fold zz in Hr'.
+    lia. }
+  destruct (Z.gtb sd 0) eqn:Hsd0.
+  - rewrite Z.gtb_ltb in Hsd0. apply Z.ltb_lt in Hsd0.
+    destruct (metastable_get sd ltac:(lia)) as (st & Hget & Hnum). rewrite Hget.
+    destruct (d_mem_zs z_dict zz) eqn:Hm; cbn [negb]; [|exact I].
+    destruct (d_mem_zs_get _ _ Hm) as (El & HEl). rewrite HEl.
+    destruct (Hpos eq_refl) as (Hz0 & Hs0 & Ha).
+    exists zz, (q - zz * 1000)%Z, sd, El, st.
+    split; [unfold id_of; subst sd; ring|].
+    split; [exact Ha|]. split; [lia|]. split; [apply z_dict_get_z_of; exact HEl|].
+    split; [exact Hnum|]. reflexivity.
+  - rewrite Z.gtb_ltb in Hsd0. apply Z.ltb_ge in Hsd0.
+    destruct (d_mem_zs z_dict zz) eqn:Hm; cbn [negb]; [|exact I].
+    destruct (d_mem_zs_get _ _ Hm) as (El & HEl). rewrite HEl.
+    destruct (Hpos eq_refl) as (Hz0 & Hs0 & Ha).
+    assert (Hsd : sd = 0%Z) by lia.
+    exists zz, (q - zz * 1000)%Z, sd, El, [].
+    split; [unfold id_of; subst sd; ring|].
+    split; [exact Ha|]. split; [lia|]. split; [apply z_dict_get_z_of; exact HEl|].
+    split; [rewrite Hsd; reflexivity|]. reflexivity.
+Qed.
+
+Lemma parse_id_total : forall z : Z, (Z.abs z <= 10000000000)%Z -> is_ok_or_valueerror (parse_id z).
+Proof.
+  intros z Hz. pose proof (pid_walk z Hz) as H. unfold pid_post in H. unfold is_ok_or_valueerror.
+  destruct (parse_id z) as [r|e]; [exact I|]. destruct e; try exact I; exact H.
+Qed.
+
+Lemma accepted_id_is_literal : forall z r, (Z.abs z <= 10000000000)%Z -> parse_id z = OK r ->
+  exists zz a sn El st, z = id_of zz a sn /\ (0 <= a < 1000)%Z /\ (0 <= sn <= 6)%Z /\
+    z_of El z_dict = Some zz /\ state_num st = Some sn /\ r = El ++ hyphen ++ s_of_int a ++ st.
+Proof.
+  intros z r Hz H. pose proof (pid_walk z Hz) as W. rewrite H in W. exact W.
+Qed.
+
+(* ------------------------------------------------------------------------------------------ *)
+(* 6. parse_nuclide                                                                             *)
+(* ------------------------------------------------------------------------------------------ *)
+
+Lemma negb_if : forall (A : Type) (b : bool) (x y : A), (if negb b then x else y) = (if b then y else x).
+Proof. intros A [] x y; reflexivity. Qed.
+
+Lemma parse_nuclide_other : forall names dsname, parse_nuclide VOther names dsname = Raise TypeError.
+Proof. intros names dsname. reflexivity. Qed.
+
+Lemma parse_nuclide_str_case : forall s names dsname,
+  parse_nuclide (VStr s) names dsname =
+  bind (parse_nuclide_str s) (fun r => if l_mem_str r names then OK r else Raise ValueError).
+Proof.
+  intros s names dsname. unfold parse_nuclide. cbv zeta.
+  destruct (parse_nuclide_str s) as [r|e]; cbv [bind]; [|reflexivity].
+  apply negb_if.
+Qed.
+
+Lemma parse_nuclide_int_case : forall z names dsname,
+  parse_nuclide (VInt z) names dsname =
+  bind (parse_id z) (fun n => bind (parse_nuclide_str n)
+       (fun r => if l_mem_str r names then OK r else Raise ValueError)).
+Proof.
+  intros z names dsname. unfold parse_nuclide. cbv zeta.
+  destruct (parse_id z) as [n|e]; cbv [bind]; [|reflexivity].
+  destruct (parse_nuclide_str n) as [r|e]; [|reflexivity].
+  apply negb_if.
+Qed.
+
+Lemma parse_nuclide_member : forall v names dsname r,
+  parse_nuclide v names dsname = OK r -> l_mem_str r names = true.
+Proof.
+  intros v names dsname r H. destruct v as [z|s|].
+  - rewrite parse_nuclide_int_case in H.
+    destruct (parse_id z) as [n|e]; cbv [bind] in H; [|discriminate].
+    destruct (parse_nuclide_str n) as [r'|e]; [|discriminate].
+    destruct (l_mem_str r' names) eqn:Hm; [|discriminate].
+    apply OK_inj in H. subst r'. exact Hm.
+  - rewrite parse_nuclide_str_case in H.
+    destruct (parse_nuclide_str s) as [r'|e]; cbv [bind] in H; [|discriminate].
+    destruct (l_mem_str r' names) eqn:Hm; [|discriminate].
+    apply OK_inj in H. subst r'. exact Hm.
+  - rewrite parse_nuclide_other in H. discriminate.
+Qed.
+
+Lemma parse_nuclide_total : forall v names dsname,
+  (forall z, v = VInt z -> (Z.abs z <= 10000000000)%Z) ->
+  match parse_nuclide v names dsname with
+  | OK _ | Raise ValueError | Raise NuclideStrError | Raise TypeError => True
+  | _ => False
+  end.
+Proof.
+  intros v names dsname Hv. destruct v as [z|s|].
+  - rewrite parse_nuclide_int_case.
+    pose proof (parse_id_total z (Hv z eq_refl)) as Hid. unfold is_ok_or_valueerror in Hid.
+    destruct (parse_id z) as [n|e]; cbv [bind].
+    + pose proof (parse_str_total n) as Hs. unfold is_ok_or_valueerror in Hs.
+      destruct (parse_nuclide_str n) as [r|e].
+      * destruct (l_mem_str r names); exact I.
+      * destruct e; try exact I; exact Hs.
+    + destruct e; try exact I; exact Hid.
+  - rewrite parse_nuclide_str_case.
+    pose proof (parse_str_total s) as Hs. unfold is_ok_or_valueerror in Hs.
+    destruct (parse_nuclide_str s) as [r|e]; cbv [bind].
+    + destruct (l_mem_str r names); exact I.
+    + destruct e; try exact I; exact Hs.
+  - rewrite parse_nuclide_other. exact I.
+Qed.
+
+Print Assumptions parse_str_total.
+Print Assumptions parse_id_total.
+Print Assumptions accepted_is_literal.
+Print Assumptions accepted_id_is_literal.
+Print Assumptions parse_nuclide_other.
+Print Assumptions parse_nuclide_str_case.
+Print Assumptions parse_nuclide_int_case.
+Print Assumptions parse_nuclide_member.
+Print Assumptions parse_nuclide_total.
